@@ -65,6 +65,13 @@ class Values:
             v = {str(keys[i % len(keys)]) if keys else str(i): self.mk(s) for i, s in enumerate(x)}
         elif k == 'opaque':
             v = Opaque(x)
+        elif k == 'set':
+            v = set()
+            for i in x:
+                v.add(int(i))
+        elif k == 'odict':
+            import collections
+            v = collections.OrderedDict((str(key), 1) for key in x)
         else:
             raise ValueError(k)
         return self.reg(v)
@@ -86,6 +93,11 @@ class Values:
             return int(v) if v == int(v) else float(repr(v))
         if isinstance(v, str):
             return ''.join(list(v))
+        if isinstance(v, set):
+            c = set()
+            for i in reversed(list(v)):
+                c.add(i)
+            return self.reg(c)
         if isinstance(v, list):
             return self.reg(list(v))
         if isinstance(v, dict):
@@ -114,7 +126,7 @@ DOMAINS = {
     'ints': ['int'],
     'numeric': ['int', 'bool', 'float', 'nan', 'none'],
     'text': ['str', 'bytes', 'none', 'int'],
-    'containers': ['list', 'tuple', 'dict', 'int', 'none'],
+    'containers': ['list', 'tuple', 'dict', 'int', 'none', 'set', 'odict'],
     'dates': ['date', 'datetime', 'none', 'int'],
     'mixed': ['int', 'bool', 'float', 'nan', 'str', 'bytes', 'none', 'date', 'datetime', 'list', 'tuple', 'dict', 'opaque'],
 }
@@ -134,6 +146,12 @@ def gen_value(rng, domain, depth=0):
             if spec['x'] and rng.random() < 0.5:
                 spec['x'] = [{'k': 'int', 'x': 1} for _ in spec['x']]
         return spec
+    if k == 'set':
+        # equal sets whose elements were inserted (and are iterated) in different orders: 0, 8 and 16 collide in a small table
+        return {'k': 'set', 'x': rng.sample([0, 8, 16], rng.choice([2, 2, 3]))}
+    if k == 'odict':
+        # the same items in a different order are a different OrderedDict
+        return {'k': 'odict', 'x': rng.sample(['a', 'b'], 2)}
     if k in ('int', 'date', 'datetime'):
         return {'k': k, 'x': rng.randint(0, 3)}
     if k == 'bool':
